@@ -646,3 +646,125 @@ Lemma sampleindex_string_total v : exists s, aac_SampleRateIndex_String v = Ok s
 Proof. unfold aac_SampleRateIndex_String. string_total. Qed.
 Lemma channels_string_total v : exists s, aac_Channels_String v = Ok s.
 Proof. unfold aac_Channels_String. string_total. Qed.
+
+(* ---- histories on one ADTS object ---- *)
+Lemma adts_run_app st ops1 ops2 :
+  adts_run st (ops1 ++ ops2) =
+  (fst (adts_run (fst (adts_run st ops1)) ops2), snd (adts_run st ops1) ++ snd (adts_run (fst (adts_run st ops1)) ops2)).
+Proof.
+  revert st. induction ops1 as [|op ops1 IH]; intros st; cbn [app adts_run fst snd].
+  - destruct (adts_run st ops2); reflexivity.
+  - destruct (adts_step st op) as [st1 o]. rewrite IH.
+    destruct (adts_run st1 ops1) as [st2 os]. cbn [fst snd].
+    destruct (adts_run st2 ops2); reflexivity.
+Qed.
+
+(* after ANY history the frame Encode returns is a function of the configuration in force only,
+   and Encode does not change it *)
+Lemma adts_history_encode st ops raw :
+  adts_run st (ops ++ [OpEncode raw]) =
+  (fst (adts_run st ops), snd (adts_run st ops) ++ [OutEnc (adts_encode (fst (adts_run st ops)) raw)]).
+Proof. rewrite adts_run_app. reflexivity. Qed.
+
+Lemma adts_encode_by_validate a raw : lenN raw <= 8184 ->
+  adts_encode a raw = match validate a with
+                      | Ok _ => Ok (spec_adts_frame (encoder_hdr a) raw)
+                      | Err e => Err e
+                      | Panic s => Panic s
+                      end.
+Proof.
+  intros H. destruct (validate a) as [[]|e|s] eqn:V.
+  - apply encode_is_spec; [apply validate_spec; exact V|exact H].
+  - unfold adts_encode. rewrite V. reflexivity.
+  - unfold adts_encode. rewrite V. reflexivity.
+Qed.
+
+(* conformant histories: which operation establishes which configuration *)
+Inductive cop : Type :=
+| CSetASC (b0 b1 : N) (rest : bytes)          (* SetASC of at least two bytes: the 5+4+4 bit fields, accepted or not *)
+| CSetShort (cfg : bytes)                      (* SetASC of fewer than two bytes: refused, nothing changes *)
+| CAssign (a : asc)                            (* *adts.ASC() = a *)
+| CDecode (h : adts_hdr) (raw tail : bytes)    (* Decode of a conformant single-block ISO frame (++ tail) *)
+| CEncode (raw : bytes).
+
+Definition cop_ok (c : cop) : Prop :=
+  match c with
+  | CSetASC b0 b1 _ => b0 < 256 /\ b1 < 256
+  | CSetShort cfg => (length cfg < 2)%nat
+  | CAssign _ => True
+  | CDecode h raw _ => frame_ok (h, raw)
+  | CEncode raw => lenN raw <= 8184
+  end.
+
+Definition cop_op (c : cop) : adts_op :=
+  match c with
+  | CSetASC b0 b1 rest => OpSetASC (b0 :: b1 :: rest)
+  | CSetShort cfg => OpSetASC cfg
+  | CAssign a => OpAssign a
+  | CDecode h raw tail => OpDecode (spec_adts_frame h raw ++ tail)
+  | CEncode raw => OpEncode raw
+  end.
+
+(* the configuration in force after an operation *)
+Definition cop_cfg (cur : asc) (c : cop) : asc :=
+  match c with
+  | CSetASC b0 b1 _ => asc_fields b0 b1
+  | CSetShort _ => cur
+  | CAssign a => a
+  | CDecode h _ _ => frame_asc h
+  | CEncode _ => cur
+  end.
+
+(* what the operation returns, given the configuration in force before it *)
+Definition cop_out (cur : asc) (c : cop) : adts_out :=
+  match c with
+  | CSetASC b0 b1 _ => OutSet (asc_fields b0 b1) (validate (asc_fields b0 b1))
+  | CSetShort _ => OutSet cur (Err 8)
+  | CAssign a => OutAssign a
+  | CDecode h raw tail => OutDec (frame_asc h) (Ok (raw, tail))
+  | CEncode raw => OutEnc (match validate cur with
+                           | Ok _ => Ok (spec_adts_frame (encoder_hdr cur) raw)
+                           | Err e => Err e
+                           | Panic s => Panic s
+                           end)
+  end.
+
+Fixpoint cops_outs (cur : asc) (cs : list cop) : list adts_out :=
+  match cs with
+  | [] => []
+  | c :: rest => cop_out cur c :: cops_outs (cop_cfg cur c) rest
+  end.
+
+Lemma adts_step_cop st c : cop_ok c -> adts_step st (cop_op c) = (cop_cfg st c, cop_out st c).
+Proof.
+  destruct c as [b0 b1 rest|cfg|a|h raw tail|raw]; cbn [cop_ok cop_op cop_cfg cop_out adts_step]; intros H.
+  - destruct H as [H0 H1]. rewrite asc_unmarshal_fields by assumption. reflexivity.
+  - rewrite asc_unmarshal_short by exact H. reflexivity.
+  - reflexivity.
+  - destruct H as (Hw & Ha & H1 & H2). cbn [fst snd] in *. rewrite decode_spec_frame by assumption. reflexivity.
+  - rewrite adts_encode_by_validate by exact H. reflexivity.
+Qed.
+
+Lemma adts_history cs : Forall cop_ok cs -> forall st,
+  adts_run st (map cop_op cs) = (fold_left cop_cfg cs st, cops_outs st cs).
+Proof.
+  induction 1 as [|c cs Hc Hcs IH]; intros st; cbn [map adts_run fold_left cops_outs]; [reflexivity|].
+  rewrite (adts_step_cop st c Hc), IH. reflexivity.
+Qed.
+
+Lemma adts_run_total ops : forall st, Forall (fun o => match o with
+    | OutSet _ (Panic _) | OutEnc (Panic _) | OutDec _ (Panic _) => False | _ => True end) (snd (adts_run st ops)).
+Proof.
+  induction ops as [|op ops IH]; intros st; cbn [adts_run snd]; [constructor|].
+  destruct (adts_step st op) as [st1 o] eqn:E. specialize (IH st1).
+  destruct (adts_run st1 ops) as [st2 os]. cbn [snd] in *. constructor; [|exact IH].
+  destruct op as [cfg|raw|d|a]; cbn [adts_step] in E.
+  - pose proof (asc_unmarshal_total st cfg) as T. destruct (asc_unmarshal st cfg) as [a r]. injection E as <- <-.
+    cbn [snd] in T. destruct r; try exact I. exact (T _ eq_refl).
+  - injection E as <- <-. unfold adts_encode.
+    pose proof (validate_no_panic st) as V. destruct (validate st) as [u|e|s]; cbn [bind]; try exact I; [|exact (V s eq_refl)].
+    destruct (to_profile_total (aobj st)) as [p ->]. exact I.
+  - pose proof (adts_decode_total st d) as T. destruct (adts_decode st d) as [a r]. injection E as <- <-.
+    cbn [snd] in T. destruct r; try exact I. exact (T _ eq_refl).
+  - injection E as <- <-. exact I.
+Qed.
